@@ -17,7 +17,7 @@ META = {
     'rule_text': 'rule instances: one per Krueger coefficient row (8 alpha + rectifying radius), one per result slot of '
                  'geo2grid compared with the Karney-Krueger reference formulas, provenance of every leaf, zone/central-meridian '
                  'midpoint identity (UTM and ISG), rounding granularity, angle-argument conversion; non-trivial = two normal '
-                 'forms were built and compared or a table row was bounded',
+                 'forms were built and compared or a table row was bounded; input-domain guards decided as predicates over the input box (no raising test fires inside lat -80..84, lon -180..180, zones 0..60; some test fires just outside); defining constants of the four shipped ellipsoids and two projections and the class-derived quantities; object-wrapper threading (CoordGeo.tm, CoordCart.tm); statelessness (a module-level write is accepted only as a memo keyed by every input of the stored value); angular_typecheck dispatch per angle class',
     'explanation': 'Static: the source of geo2grid/alpha_coeff/rect_radius is abstractly evaluated (never run) into exact normal forms '
                    '(exponential polynomials over interned atoms). Decides the named necessary conditions of C01 for every '
                    'ellipsoid/projection/position at once: coefficient tables equal the Krueger series within a bounded effect, '
